@@ -2,15 +2,16 @@ package main
 
 // Go side of the Compose check: complete rows through pgdump.ReadRows and complete values through
 // pgdump.DecodeType, compared with the composed Coq model WITHOUT any sub-decoder placeholder.
-// Reuses parseCols (c03.go) and c04Canon / c04Refloat / c04Remoney (c04.go): floats printed with %g
-// inside geometric strings are parsed back to bit-pattern tokens, money text to integer cents —
-// exactly as in C04's own run.  The only tokens left in M/S are the two library calls that are not
-// logic (strings.ToValidUTF8, encoding/json); they arrive hex-encoded inside a canonical string and
-// are replaced here by the real call's result.
+// Reuses parseCols (c03.go) and c04Refloat / c04Geometric (c04.go): floats printed with %g inside
+// geometric strings are parsed back to bit-pattern tokens exactly as in C04's own run.  The other
+// tokens in M/S are library calls that are not logic ("$%.2f" money text, strings.ToValidUTF8,
+// encoding/json); they arrive hex-encoded inside a canonical string and are replaced here by the
+// real call's result.
 
 import (
 	"encoding/hex"
 	"encoding/json"
+	"fmt"
 	"regexp"
 	"strconv"
 	"strings"
@@ -30,7 +31,10 @@ func composeCanon(v interface{}, oid int) string {
 			return "l" + cList(parts)
 		}
 	}
-	return c04Canon(v, oid)
+	if s, ok := v.(string); ok && c04Geometric[oid] {
+		return cStr(c04Refloat(s))
+	}
+	return canon(v)
 }
 
 func composeRow(m map[string]interface{}, cols []pgdump.Column) string {
@@ -40,6 +44,9 @@ func composeRow(m map[string]interface{}, cols []pgdump.Column) string {
 	oidOf := map[string]int{}
 	for _, c := range cols {
 		oidOf[c.Name] = c.TypID // DecodeTuple: a later column of the same name overwrites
+		if c.Len == -2 {
+			oidOf[c.Name] = 0 // C strings are returned as they are, never handed to DecodeType
+		}
 	}
 	keys := make([]string, 0, len(m))
 	for k := range m {
@@ -65,6 +72,10 @@ func sortStrings(a []string) {
 var composeToValid = regexp.MustCompile(`s:4040746f76616c69643a((?:3[0-9]|6[1-6])*)`)
 var composeJSON = regexp.MustCompile(`y:6a736f6e3a((?:3[0-9]|6[1-6])*)`)
 
+// s:<hex of "$<" + decimal cents + ">">  : the money oracle, by definition fmt.Sprintf("$%.2f", float64(cents)/100)
+// (C04's own run compares cents exactly and keeps |cents| <= 10^15; here any int64 can reach the money branch)
+var composeMoney = regexp.MustCompile(`s:243c((?:2d)?(?:3[0-9])+)3e`)
+
 func composeInner(tok string, re *regexp.Regexp) []byte {
 	m := re.FindStringSubmatch(tok)
 	asc, _ := hex.DecodeString(m[1]) // the ASCII hex digits
@@ -76,9 +87,19 @@ func composeInner(tok string, re *regexp.Regexp) []byte {
 }
 
 func composeNorm(expected string) string {
-	if !strings.Contains(expected, "4040746f76616c69643a") && !strings.Contains(expected, "y:6a736f6e3a") {
+	if !strings.Contains(expected, "4040746f76616c69643a") && !strings.Contains(expected, "y:6a736f6e3a") &&
+		!strings.Contains(expected, "s:243c") {
 		return expected
 	}
+	expected = composeMoney.ReplaceAllStringFunc(expected, func(tok string) string {
+		m := composeMoney.FindStringSubmatch(tok)
+		asc, _ := hex.DecodeString(m[1])
+		cents, err := strconv.ParseInt(string(asc), 10, 64)
+		if err != nil {
+			return tok
+		}
+		return cStr(fmt.Sprintf("$%.2f", float64(cents)/100))
+	})
 	expected = composeToValid.ReplaceAllStringFunc(expected, func(tok string) string {
 		return cStr(strings.ToValidUTF8(string(composeInner(tok, composeToValid)), "."))
 	})
